@@ -18,7 +18,7 @@ Proof.
   induction t as [|e t IH]; intros s f Hs [s' Hr]; [reflexivity|].
   cbn [run_obj] in Hr. destruct (auto_step s e) as [s1|c] eqn:E; [|discriminate].
   assert (G : forall f1, sim s1 f1 -> scan f1 t = 0%N) by (intros f1 H1; apply (IH s1 f1 H1); eauto).
-  destruct e as [o|o|o ok|o|o same|o]; destruct s; cbn [auto_step] in E; try discriminate;
+  destruct e as [o|o|o ok|o|o same|o|o]; destruct s; cbn [auto_step] in E; try discriminate;
     cbn [sim] in Hs; cbn [scan];
     try (destruct ok; [|discriminate]); try (destruct same; [|discriminate]);
     injection E as <-;
@@ -42,7 +42,7 @@ Proof.
     assert (G : forall t s, run_obj s t <> inr 0%N).
     { induction t0 as [|e r IHr]; intros s; cbn [run_obj]; [discriminate|].
       destruct (auto_step s e) as [s1|c1] eqn:A; [apply IHr|].
-      destruct e as [o|o|o ok|o|o same|o]; destruct s; cbn [auto_step] in A; try discriminate; try (injection A as <-; discriminate);
+      destruct e as [o|o|o ok|o|o same|o|o]; destruct s; cbn [auto_step] in A; try discriminate; try (injection A as <-; discriminate);
         try (destruct ok; [discriminate|injection A as <-; discriminate]); try (destruct same; [discriminate|injection A as <-; discriminate]). }
     exact (G _ _ E).
 Qed.
